@@ -407,6 +407,51 @@ def run(E: Engine, rep: Report, tier: str) -> dict:
         _check_ro(E, rep, E.R.effective(f), f.short)
     rep.floor("RO", 20)
 
+    # -------------------------------------------------------------- ALIAS
+    # a read accessor never hands out one of the sequence's own mutable containers: whoever edits the result would
+    # change the sequence (and, through switch_register/switch_device which copy `declared_variables`, a replica would
+    # share the table with its original) without any call being recorded
+    from .. import sym as _symA
+    from .symutil import S as _SA, sh as _shA, unobj as _unA
+
+    mutable_attrs: dict[str, str] = {}
+    for fs in seq.methods.values():
+        for f in fs:
+            if f.kind in ("overload", "property", "cached_property"):
+                continue
+            for l in _SA(E, f, inline=False).logged("store"):
+                t = l.target
+                if t is None or t[0] != "attr" or t[1] != ("name", "self") or l.value is None:
+                    continue
+                v = _unA(l.value)
+                kind = None
+                if v[0] in ("dict", "list", "set") or (v[0] == "comp" and v[1] in ("dict", "list", "set")):
+                    kind = v[0] if v[0] != "comp" else v[1]
+                elif v[0] == "call" and v[1][0] == "name" and v[1][1] in ("dict", "list", "set", "defaultdict", "OrderedDict", "_Schedule"):
+                    kind = v[1][1]
+                if kind:
+                    mutable_attrs[t[2]] = kind
+    if not {"_variables", "_calls", "_schedule"} <= set(mutable_attrs):
+        raise AnalysisError(f"anchor: mutable containers of Sequence not recognised (got {sorted(mutable_attrs)})")
+    n_acc = 0
+    for nm_, fs in seq.methods.items():
+        if nm_.startswith("_"):
+            continue
+        for f in fs:
+            if f.kind in ("overload", "setter"):
+                continue
+            for l in _SA(E, f, inline=False).logged("return"):
+                if l.value is None:
+                    continue
+                r_ = _unA(l.value)
+                if not any(t[0] == "attr" and t[1] == ("name", "self") and t[2] in mutable_attrs for t in _symA.subterms(r_)):
+                    continue
+                n_acc += 1
+                aliased = r_[0] == "attr" and r_[1] == ("name", "self") and r_[2] in mutable_attrs
+                rep.check(not aliased, "ALIAS", f"Sequence.{nm_}|returns-no-reference-to-own-container", "returns a copy / a derived value, not the container itself",
+                          f"Sequence.{nm_} returns `{_shA(r_, 60)}`, the sequence's own {mutable_attrs.get(r_[2], '')} container: edits of the result (e.g. declare_variable on a replica that was given this table) change the sequence without any recorded call", E.where(f, l.node))
+    rep.floor("ALIAS", 3)
+
     unres = E.unresolved_in(callables)
     return {
         "functions_analysed": len(callables),
